@@ -236,6 +236,37 @@ Fixpoint to_valid_utf8_aux (skip : nat) (s : string) : string :=
   end.
 Definition to_valid_utf8 (s : string) : string := to_valid_utf8_aux 0 s.
 
+(* ---- trimPartialRune (ircserver.go, repair of finding c15:len-delivered): an incomplete UTF-8 sequence at the end of a
+   line (left there by the cut after 510 bytes) is removed.  utf8.RuneStart / utf8.FullRune as in unicode/utf8. *)
+Definition rune_start (n : N) : bool := negb (in_range 128 191 n).
+Definition full_rune (s : string) : bool :=
+  match s with
+  | EmptyString => false
+  | String c r =>
+      match lead_info (byte_of c) with
+      | None => true                       (* ill-formed lead byte: a width-1 error rune *)
+      | Some (k, lo, hi) =>
+          if Nat.leb (S k) (slen s) then true
+          else match r with
+               | EmptyString => false
+               | String c1 r1 =>
+                   if negb (in_range lo hi (byte_of c1)) then true
+                   else match r1 with
+                        | EmptyString => false
+                        | String c2 _ => negb (in_range 128 191 (byte_of c2))
+                        end
+               end
+      end
+  end.
+Definition byte_at (s : string) (i : nat) : N :=
+  match String.get i s with Some c => byte_of c | None => 0%N end.
+Definition trim_at (s : string) (k : nat) (next : string) : string :=
+  if Nat.leb k (slen s) then
+    let i := Nat.sub (slen s) k in
+    if rune_start (byte_at s i) then (if full_rune (sdrop i s) then s else stake i s) else next
+  else s.
+Definition trim_partial_rune (s : string) : string := trim_at s 1 (trim_at s 2 (trim_at s 3 s)).
+
 (* insertion sort with bytewise order (= sort.Strings) *)
 Fixpoint insert_sorted (x : string) (l : list string) : list string :=
   match l with
